@@ -35,6 +35,11 @@ def run(c):
     conc = dict(workload="mixed", txns=3, keys=6, slot=2, sched="gate", max_step=8)
     ctr, _ = _conc.run_conc(c, binp, "g10", c.pick(15, 150), conc, child=1)
     sets.append(("conc", ctr))
+    # disjoint writers on shared nodes: version conflict -> partial rollback -> refetch-and-merge -> retry commits
+    # (the retry re-uses the value blobs the first attempt wrote)
+    conc2 = dict(workload="disjoint", txns=3, keys=5, slot=4, sched="gate", max_step=6)
+    ctr2, _ = _conc.run_conc(c, binp, "h10", c.pick(15, 150), conc2, child=1)
+    sets.append(("conc", ctr2))
     classes = collections.Counter()
     total = 0
     for mode, traces in sets:
